@@ -30,6 +30,8 @@ R09.8  debug names (-g): after the duplicate-name pass no two functions keep the
 R09.6  data-segment embedding neutrality: for modules mixing passive and active segments of different sizes, the blob modes
        (gnu-ld, sectcreate) address segment k at ds + (sum of the sizes of all earlier segments) with the same memory, offset
        and size as the arrays mode uses for d<k>, and the blob writer emits every segment, in order, with its full length
+R09.15 the producer drains the task slot (waits on produce while writer.task != NULL, under the lock) before it posts the next task
+       and before it announces done - unless the worker tests the slot before done
 """
 import re
 
